@@ -6,3 +6,9 @@ claim('C04', 'exploration', 'bounded-exhaustive token enumeration against a refe
       'through parser, cfg_setmulti and cfg_setopt under three ambient errno values; an independent converter written from the statement is the oracle. '
       'Bounded-exhaustive exploration is the right level: the conversion is a pure function of a short token, so enumeration to the bound visits every radix/sign/garbage/range edge.',
       'Trusts: Python int()/float() as exact reference arithmetic; glibc strtod is not re-verified beyond agreement with Python; tokens beyond the bound are only sampled.')
+
+claim('C03', 'exploration', 'bounded-exhaustive literal enumeration against a reference decoder (runtime monitor over real executions, ASan+UBSan build)',
+      'Every literal body up to the length bound over 24 byte-class representatives is lexed by the real scanner in double-quoted, single-quoted and bare form '
+      '(with trailing comments of every style and inside lists, under four environments) and the stored string is compared with a decoder written from the statement. '
+      'The decoding table is a set of overlapping longest-match rules over byte classes, so class-exhaustive enumeration to the bound is the level that reaches every rule interaction.',
+      'Trusts: the 24 representatives stand for their byte classes (other bytes of a class are only sampled); bodies the statement leaves open (NUL escapes, unterminated ${) are executed but not judged.')
